@@ -24,6 +24,7 @@ type histParams struct {
 	Drain  bool     `json:"drain"`
 	Tx     bool     `json:"tx"`     // transaction universe + subscription
 	Live   bool     `json:"live"`   // C07 liveness phase at the end
+	ExtraDepth int  `json:"extra_depth"` // explore this scenario deeper than the check's base depth
 }
 
 // bootSync drives a freshly started node until it has converged to the peer's chain and told
